@@ -11,7 +11,9 @@ const TEXTS = {
   other: { t: '@jsx gg', factory: 'gg' },
 };
 const STYLES = {
-  block: (t) => `/* ${t} */`, jsdoc: (t) => `/** ${t} */`, jsdocMulti: (t) => `/**\n * ${t}\n */`, jsdocMulti2: (t) => `/**\n * @file demo\n * ${t}\n * @license MIT\n */`, otherTagBefore: (t) => `/**\n * @jsxRuntime classic\n * ${t}\n */`, otherTagAfter: (t) => `/**\n * ${t}\n * @jsxImportSource vue\n */`, line: (t) => `// ${t}`, tight: (t) => `/*${t}*/`,
+  block: (t) => `/* ${t} */`,
+  // other comments at the same position, before / after the annotation
+  afterBanner: (t) => `/* (c) the authors */\n/* ${t} */`, afterLine: (t) => `// eslint-disable-next-line\n// ${t}`, beforeNote: (t) => `/* ${t} */\n/* a note */`, jsdoc: (t) => `/** ${t} */`, jsdocMulti: (t) => `/**\n * ${t}\n */`, jsdocMulti2: (t) => `/**\n * @file demo\n * ${t}\n * @license MIT\n */`, otherTagBefore: (t) => `/**\n * @jsxRuntime classic\n * ${t}\n */`, otherTagAfter: (t) => `/**\n * ${t}\n * @jsxImportSource vue\n */`, line: (t) => `// ${t}`, tight: (t) => `/*${t}*/`,
 };
 // module shapes: statements; `calls` = number of element + fragment vnode calls when everything is evaluated
 const SHAPES = {
@@ -20,6 +22,9 @@ const SHAPES = {
   nested: { stmts: ['const z = 1;', '__out.a = () => <div><b><i /></b><></></div>;'], calls: 4 },
   comp: { stmts: ['__out.a = () => <Comp>{x}{y}</Comp>;', '__out.b = () => <p />;'], calls: 2 },
   // elements that are wrapped (withDirectives) or nested in attribute values / slot objects are vnode calls like any other
+  // the factory's name is also a binding of the module: the calls go to that binding
+  boundFactory: { stmts: ['function hh(t, p, c) { return __env.local(t, p, c); }', '__out.a = () => <div id="a"><b/></div>;'], calls: 2, bound: 'hh' },
+  boundImport: { stmts: ["import { hh } from 'lib';", '__out.a = () => <><i /></>;'], calls: 2, bound: 'hh' },
   dirs: { stmts: ['__out.a = () => <div v-show={x} />;', '__out.b = () => <Comp v-foo={y} />;', 'let mvv = 1;\n__out.c = () => <input v-model={mvv} />;'], calls: 3 },
   attrJsx: { stmts: ['__out.a = () => <div icon=<b/> tip={<i/>} />;', '__out.b = () => <Comp v-slots={{ foo: () => <u/> }} />;'], calls: 5, slots: true },
 };
@@ -64,9 +69,10 @@ function judge(c, resps) {
   if (r.parse_error) return { engineError: 'generated module does not parse: ' + r.parse_error };
   if (r.panic || r.died || r.hang || !r.eval_js) return { skip: true };
   const viol = [];
-  const counts = { hh: 0, gg: 0, pp: 0, FF: 0 };
+  const counts = { hh: 0, gg: 0, pp: 0, FF: 0, local: 0 };
   const stub = (name) => function (type, props, children) { counts[name]++; return { __v_isVNode: true, type, props: props || null, children: children === undefined ? null : children }; };
-  const env = { bound: { x: 'x', y: 'y', Comp: { __c: 'Comp' } }, globals: { hh: stub('hh'), gg: stub('gg'), pp: stub('pp'), FF: stub('FF') } };
+  const localStub = stub('local');
+  const env = { local: localStub, modules: { lib: { hh: localStub } }, bound: { x: 'x', y: 'y', Comp: { __c: 'Comp' } }, globals: { hh: stub('hh'), gg: stub('gg'), pp: stub('pp'), FF: stub('FF') } };
   let created = 0;
   withModule(r.eval_js, env, (out, rec, loadError) => {
     if (loadError) { viol.push({ clause: 'load', diff: 'exception:' + loadError.name, msg: errStr(loadError) }); return; }
@@ -75,7 +81,8 @@ function judge(c, resps) {
     } catch (e) { viol.push({ clause: 'run', diff: 'exception:' + e.name, msg: errStr(e) }); return; }
     created = rec.vnodes.filter((v) => !v.__text).length;
   });
-  const want = expectedFactory(c);
+  let want = expectedFactory(c);
+  if (SHAPES[c.shape].bound && want === SHAPES[c.shape].bound) want = 'local'; // the module's own binding of that name
   const total = SHAPES[c.shape].calls;
   const got = Object.assign({ createVNode: created }, counts);
   if (!viol.length) {
